@@ -46,6 +46,12 @@ CHECKS["C07"] = dict(
   text="Every ordered list without repetition of <=3 (thorough <=4) index files over 8 file sets built so that every pair collides (same id in older/newer/extended/shrunk versions, shared and disjoint hosts, v4 and v6, earlier and later reference seconds, a newer version whose first packet is earlier, other capture names, packet indexes across 2^32, a 70000-byte chunk behind 300 payload-less packets): for every suffix start the suffix is replaced by index.Merge's output, and for every second suffix start merged again. Before and after, every visible stream (newest version per id through the stack) is compared with the generator's newest version on all C01 observations, no id may be in two output files, and 35 searches (every filter kind, sorts, limits) must give the same result on the merged stack as on the unmerged one.",
   note="Search results are compared as sets unless the sort list ends in id. The second writer of a merge (more than 65536 host groups / 2^32 streams) is not reachable.")
 
+CHECKS["C02"] = dict(
+  category="model_checking", engine="E4-enum", design_ref="3/C02",
+  technique="exhaustive enumeration of query trees x layouts x sort/limit/page/id-mask against index.SearchStreams, reference = the expression evaluated on the generator's stream records",
+  text="Every expression tree of the stated families (1-2 leaves quick, 3 thorough; 65 atoms of every filter kind incl. tags with pending streams and garbage bits, marks, services, data filters on raw payload and on cached converter output with selectors) is parsed and searched over every layout of a 12-stream population on 1-3 (thorough up to 5 layouts) stacked index files in which some ids also exist as older, different, shadowed versions; x 13 (thorough 25) sort key lists x 12 (limit, page) pairs x id restriction. The result must contain no stream twice, only members of the denoted set in their newest version, have the key sequence of the sorted truth cut to the page, and the more flag must equal 'further matches exist'. The unpaged id-sorted search is judged first; pages of a query whose unpaged result is already wrong are not judged separately.",
+  note="Quick uses a fixed 6-combination design per query over (layout, sort, page, mask), thorough the full product. Ties across a page edge may resolve either way. Sub-queries and grouping are not enumerated. The condition-struct evaluator of C03 is validated here against the engine on every distinct normal form met.")
+
 NOT_YET = {}
 
 def main():
